@@ -1284,9 +1284,117 @@ func c20LargeEnum(thorough bool, yield func(c20LargeCase)) {
 	}
 }
 
+
+// ---------------------------------------------------------------------------
+// Record-count sweep (fault-free): "if it succeeds, every record of every file
+// is queryable" must not depend on how many records and labels an upload has,
+// in particular not on where the server's batched inserts happen to be cut.
+
+type c20SweepCase struct {
+	ID       uint64
+	Store    string
+	From, To int // uploads of From..To records, one after the other on one database
+	Extra    int // additional file labels per record
+}
+
+var c20SweepOK sync.Map
+
+func c20SweepUpload(n, extra int) c19Upload {
+	f := c19File{Name: "sweep.txt"}
+	f.Lines = append(f.Lines, c19SetL("attempt", "sweep"))
+	for e := 0; e < extra; e++ {
+		f.Lines = append(f.Lines, c19SetL("e"+strconv.Itoa(e), "v"+strconv.Itoa(e)))
+	}
+	for i := 0; i < n; i++ {
+		f.Lines = append(f.Lines, c19BenchL("Sweep", fmt.Sprintf(" 1 %d ns/op", i), c19Sub{Key: "i", Val: kit.B(strconv.Itoa(i))}))
+	}
+	return c19Upload{User: "user", Files: []c19File{f}}
+}
+
+func c20SweepCheck(c c20SweepCase) *kit.Fail {
+	s, err := c20NewSys(c.Store)
+	if err != nil {
+		panic("c20 monitor: cannot set up: " + err.Error())
+	}
+	defer s.close()
+	r := &c20Run{c: c20Case{Token: "sweep"}, s: s, m: &c19Model{}, nar: &c19Narrow{}, names: map[string]bool{}}
+	for n := c.From; n <= c.To; n++ {
+		if f := r.good(fmt.Sprintf("upload of %d records with %d extra labels", n, c.Extra), c20SweepUpload(n, c.Extra)); f != nil {
+			return f
+		}
+	}
+	if f := r.probes("after the sweep uploads"); f != nil {
+		return f
+	}
+	bound := 4*r.m.totalLines() + 100
+	queries := 0
+	for ui, sv := range r.m.ups {
+		recs := r.m.recs[ui]
+		if len(recs) == 0 {
+			return kit.Failf("monitor-model", "no model records for upload %s", sv.ID)
+		}
+		// the first and the last record of the upload, through each of their labels
+		for _, ri := range []int{0, len(recs) - 1} {
+			rec := recs[ri]
+			var keys []string
+			for k := range c19Union(rec.Labels, rec.Name) {
+				if k != "upload-time" && k != "upload" {
+					keys = append(keys, k)
+				}
+			}
+			sort.Strings(keys)
+			for _, k := range keys {
+				v := c19Union(rec.Labels, rec.Name)[k]
+				ts := []c19ResolvedTerm{{k, ":", v}, {"upload", ":", sv.ID}, {"i", ":", rec.Name["i"]}}
+				text := k + ":" + v + " upload:" + sv.ID + " i:" + rec.Name["i"]
+				o, complete := s.queryDB(text, bound)
+				if f := r.m.judgeResults("sweep db", text, ts, o, complete, len(r.m.ups), r.nar); f != nil {
+					return f
+				}
+				if len(o.res) != 1 {
+					return kit.Failf("query-result-mismatch", "sweep db Query(%q) returns %d records, want the one record of upload %s (%d records, %d extra labels) it describes", text, len(o.res), sv.ID, len(recs), c.Extra)
+				}
+				queries++
+			}
+			if ri == len(recs)-1 {
+				text := "upload:" + sv.ID
+				o, complete := s.queryHTTP(text, bound)
+				if f := r.m.judgeResults("sweep http", text, []c19ResolvedTerm{{"upload", ":", sv.ID}}, o, complete, len(r.m.ups), r.nar); f != nil {
+					return f
+				}
+			}
+		}
+	}
+	kit.Count("C20 sweep: single-record queries through each label of an upload's first and last record", int64(queries))
+	c20SweepOK.Store(c.ID, true)
+	return r.nar.f
+}
+
+func c20SweepEnum(thorough bool, yield func(c20SweepCase)) {
+	r := kit.NewRand(kit.Seed(), "c20-sweep", 0)
+	extras := []int{0, r.Range(1, 6)}
+	maxN, step := 96, 24
+	if thorough {
+		extras = []int{0, 1, 2, 3, 4, 5, 6}
+		maxN = 320
+	}
+	id := uint64(1)
+	for _, e := range extras {
+		for from := 1; from <= maxN; from += step {
+			st := []string{"mem", "local"}[r.Intn(2)]
+			yield(c20SweepCase{ID: id, Store: st, From: from, To: from + step - 1, Extra: e})
+			id++
+		}
+	}
+}
+
 func TestVerifC20Faults(t *testing.T) {
 	defer c20Closers.Wait()
-	kit.Run(t, "C20", kit.Class[c20LargeCase]{
+	kit.Run(t, "C20", kit.Class[c20SweepCase]{
+		Name: "c20-record-count-sweep", Enum: c20SweepEnum, Check: c20SweepCheck, MinNonTrivial: 4,
+		NonTrivial: func(c c20SweepCase) bool { v, ok := c20SweepOK.Load(c.ID); return ok && v.(bool) },
+		Rule:       "fault-free: uploads of EVERY record count 1..96 (thorough 1..320), each record with 9 labels plus 0 or 1-6 (thorough: each of 0..6) extra file labels, 24 consecutive counts per database on fs.MemFS or fs/local; every upload must be accepted and stored; full dump, the attempt's records and the listings must equal the model; the first and the last record of every upload must be the single answer of a query through each one of its labels, and upload:ID over HTTP must return all records of the upload.",
+	}, kit.Class[c20LargeCase]{
 		Name: "c20-large-file", Enum: c20LargeEnum, Check: c20LargeCheck, MinNonTrivial: 1, Serial: true,
 		NonTrivial: func(c c20LargeCase) bool { v, ok := c20LargeOK.Load(c.ID); return ok && v.(bool) },
 		Rule:       "fault-free: one upload whose first file holds 17-19 MiB in about 300 benchmark lines of 56-62 KB (below the readers' 64 KiB line limit; every line its own name and label blocks every 20-60 lines, so about 300 records) and a small second file, between two small uploads, on fs.MemFS or fs/local (thorough: both). The upload must be accepted; each stored file must be header + exactly the uploaded bytes; full dump, the upload's records, the records of the last line / last label block / second file and the listings (db.DB and storage.Client) must equal the model of all uploaded lines.",
